@@ -662,3 +662,35 @@ Proof.
     by (now rewrite !app_assoc_s).
   apply literal_at_app.
 Qed.
+
+(* a string constant passed for an earlier parameter of a three-parameter user function: the object text,
+   the literal and the later argument are all inserted unchanged -- in particular the literal is not searched
+   for the later parameter names *)
+Lemma user_subst : forall (ps : string * (string * string)) (obj d later : string), In ps user_params ->
+  subst_line [(fst ps, obj); (fst (snd ps), d); (snd (snd ps), later)] (user_template (fst ps) (fst (snd ps)) (snd (snd ps))) =
+  "double result = g_labelled_value(*" +++ obj +++ ", " +++ d +++ ", " +++ later +++ ");".
+Proof.
+  intros ps obj d later H. unfold user_params in H.
+  repeat (destruct H as [<- | H]; [vm_compute; reflexivity|]). destruct H.
+Qed.
+
+Lemma user_call_literal : forall (ps : string * (string * string)) (obj s later : string), In ps user_params ->
+  exists line, user_call_line (fst ps) (fst (snd ps)) (snd (snd ps)) obj (CStr s) later = OK line /\
+    literal_at ("double result = g_labelled_value(*" +++ obj +++ ", ") line = Some (LStr s, ", " +++ later +++ ");").
+Proof.
+  intros ps obj s later H. unfold user_call_line. rewrite render_str.
+  eexists. split; [reflexivity|].
+  rewrite (user_subst ps obj _ later H).
+  replace ("double result = g_labelled_value(*" +++ obj +++ ", " +++ cpp_string_literal s +++ ", " +++ later +++ ");")
+    with (("double result = g_labelled_value(*" +++ obj +++ ", ") +++ cpp_string_literal s +++ ", " +++ later +++ ");")
+    by (now rewrite !app_assoc_s).
+  apply literal_at_app.
+Qed.
+
+(* the one-parameter-at-a-time substitution (what replace_whole_words must not be): the literal is searched again *)
+Definition subst_sequential (repl : list (string * string)) (line : string) : string :=
+  fold_left (fun l sd => subst_line [sd] l) repl line.
+Lemma sequential_subst_refuted :
+  exists line, subst_sequential [("jet", "i_obj1"); ("label", cpp_string_literal "pt bin"); ("bin", "3")] (user_template "jet" "label" "bin") = line /\
+    literal_at "double result = g_labelled_value(*i_obj1, " line = Some (LStr "pt 3", ", 3);").
+Proof. eexists. split; [reflexivity | vm_compute; reflexivity]. Qed.
